@@ -1,7 +1,7 @@
 #!/usr/bin/env python3
 """Writes the prompts for a round of seeded changes (development aid, not a registered check).
 
-  seed_prompts.py <round>      round in {4, 5, 6, 7, 8, 9}; creates /tmp/seeds/prompt_CNN.txt for every property
+  seed_prompts.py <round>      round in {4, 5, 6, 7, 8, 9, 10}; creates /tmp/seeds/prompt_CNN.txt for every property
 
 The sub-agents get ONLY the rendered prompt (property text from properties.jsonl) and their own scratch
 worktree /tmp/seeds/CNN; nothing from /verif. Create the worktrees first:
@@ -211,6 +211,48 @@ ROUNDS = {
        return in the relevant code), leaving first-time behaviour and the failing call itself correct.
      O is free: the change YOU would bet on as the least likely to be found, with a root cause different
        from I and J, preferably in a different file or package (bufiox, unsafex, internal/*, container/*).
+     Name the clause each change breaks in its README."""),
+    10: dict(a="A2", b="B2", c="C2",
+            testers="""Assume the testers are excellent and have already survived nine rounds of
+     planted bugs (randomized and bounded-exhaustive tests against independent reference models; sizes
+     from 0 to 64 MiB and declared sizes up to 2^32; histories of hundreds of operations on one object,
+     two live objects interleaved; reuse after failures, pooled objects, results retained and re-checked
+     much later; a co-tenant of the buffer pools; fault injection of every kind on sources and sinks;
+     inputs on the heap, in guard-page arenas and on goroutine stacks; fresh processes; unusual value and
+     error types; re-entrant callbacks; long runs of many thousand operations per process; the race
+     detector). What has repeatedly slipped through in the past is a CLAUSE of the statement that the
+     testers read more narrowly than it is written (only the first Flush, only the first load, only one
+     of the entry points a clause applies to, only the success path of a call that can also fail, only
+     one of two equivalent ways to obtain an argument). In the last round the testers closed these gaps:
+     Release/Flush/Close called with unusual arguments, strings handed out by earlier loads fed back in,
+     sources that go silent, messages following a rejected message, the same name or value arriving twice
+     in a row on one reader, errors with unusual method sets, readers whose error changes between calls,
+     wrapped objects whose Read/Write fail partially; and in the round before this one: calls that do
+     nothing (empty writes) after a failure, dozens of buffer growths between two flushes, loads that
+     repeat a key, probes cut out of returned strings, a different message right after rejected ones,
+     headers both truncated and malformed through every reading entry point, exceptions printed before
+     they are compared, holder structs of unusual shape, errors with their own formatting, wrapped
+     objects with other length-like methods, results written through. Memory of the caller that ends
+     up in the shared buffer pool, and slices kept across calls by the generic skipper, are found at
+     once - do not use those. In the last round these were closed as well: writers that keep payloads
+     by reference until Flush, readers that ignore negative counts, histories that only peek, a decoder
+     released right after a rejected call, the absent/empty/filled states of optional maps across two
+     reads into one receiver, Release after a source went silent, error texts read again after the
+     reader was released, exact consumed length behind a 128 MiB string, counters after a failed Flush,
+     results compared across the allocator switch on failing inputs too, appending to decoded trees,
+     callbacks handed values the library could process itself, a panic inside the caller's Error().
+     Look for what is STILL read narrowly. Your bug must
+     survive all of the above.""",
+            kinds="""     First split the statement into its clauses (each sentence and each part joined by "and", ";", ",")
+     and, for each clause, list the exported entry points it applies to (`go doc -all <pkg>`).
+     A2 must break exactly ONE clause, the one you judge most likely to be tested narrowly, and only through
+       the entry point, the repetition (2nd, 3rd, n-th use) or the argument provenance (an argument that is
+       an earlier RESULT of the same object or of its sibling) that a tester would most likely skip.
+     B2 must break a clause only in the state an object is in AFTER a call that failed or was rejected
+       (a different failure than the ones you think are commonly injected: look for the rarest error
+       return in the relevant code), leaving first-time behaviour and the failing call itself correct.
+     C2 is free: the change YOU would bet on as the least likely to be found, with a root cause different
+       from A2 and B2, preferably in a different file or package (bufiox, unsafex, internal/*, container/*).
      Name the clause each change breaks in its README."""),
 }
 
